@@ -56,6 +56,25 @@ CHECKS = {'C01': {'text': 'Lean theorems about an interleaving transition system
          'note': 'Trusted: Lean kernel + 3 standard axioms; correspondence harness and its generator; deque(maxlen) and threading.Condition are '
                  'modelled/exercised, not verified. Blocking get_next_signal is exercised with real threads only.',
          'technique': 'Lean 4 proof (inductive invariant over op sequences) + differential correspondence with the real class'},
+ 'C13': {'text': 'Lean theorems about an executable model of QMI_Tcp/Udp/SerialTransport (read, read_until, read_until_timeout, discard_read, open, '
+                 'close; device = oracle script of recv results data|timeout|eof with elapsed virtual time, i.e. every packetisation and arrival '
+                 'timing), for all states, scripts, terminators (any length), counts, time-outs (None/0/+/-) and all op sequences incl. the device '
+                 'sending at any point: conservation (returned/discarded log ++ buffer ++ undelivered = device stream; unconditional for TCP/serial '
+                 '= conservation_stream, for UDP under datagrams<=packet size = conservation_udp, otherwise exactly one datagram lost = '
+                 'lost_datagram_step), read_exact, readUntil_shortest (+ chunking invariance), timeout/exception_consumes_nothing, '
+                 'readUntilTimeout_le_n for TCP and serial (partial) with a decide-checked counter-example for UDP replayed on the real code, '
+                 'closed_never_touches_device, open_close_state_machine / isOpen_run, discard_empties_buffer, exhausted_only_when_script_empty (loop '
+                 'fuel never binds). Tie: the three real transports against a scripted socket / serial.Serial and virtual time.monotonic; result, '
+                 'exception class, every device interaction (settimeout values, recv sizes), clock, script position and _read_buffer diffed with the '
+                 'Lean driver per op; independent oracle: returned bytes are the front of the undelivered stream, buffer = undelivered, exactly-n / '
+                 'shortest / at-most-n, closed => no device call, open/close refusals.',
+         'note': "Trusted: Lean kernel + 3 axioms; the scripted device (stream recv <= requested with remainder kept, datagram whole or OSError, b'' "
+                 'at EOF, settimeout(<0) ValueError, in_waiting/reset_input_buffer semantics) and virtual clock (1 tick = 1/8 s, exact floats); '
+                 'bytearray.find/endswith mirrored and diffed; open() always succeeds (connect failure not modelled); write() not modelled; '
+                 'packet-size constants read from the live classes each run. 1 known finding: UDP read_until_timeout returns > n bytes (reproduced '
+                 'on real sockets with t=0).',
+         'technique': 'Lean 4 proof (stream-accounting invariant by induction over fuel-recursive loop models and op lists) + op-sequence '
+                      'correspondence with device-interaction traces against scripted devices'},
  'C16': {'text': 'Lean theorems over all lines/texts/trees/type descriptors (mutual structural recursion, no bounds): strip_exact, '
                  'strip_comments_exact, load_ignores_comments, duplicate_key_rejected/load_ok_iff, strip_render_id + load_dump_roundtrip (json as '
                  'parameter), admits_iff (parser = independent inductive spec Admits), admits_functional, roundtrip (parseValue τ (toDict v) = ok '
@@ -115,4 +134,24 @@ CHECKS = {'C01': {'text': 'Lean theorems about an interleaving transition system
                  '(assumed not to touch flag/links — validated by the per-run correspondence); concrete transports, faults inside close(), multiple '
                  'faults and BaseException are out of scope; consistent_of_wf/close_after_open are stated for single-link drivers.',
          'technique': 'Lean 4 proof (generic lemmas + per-class decide +kernel on programs translated from source) + line-trace fault-sweep '
-                      'correspondence with the real drivers'}}
+                      'correspondence with the real drivers'},
+ 'C20': {'text': 'Lean theorems over all symbol lists / file maps / name tables / device states / name lists / value assignments (induction, no '
+                 'bounds): binding_injective (accepted ⇒ names distinct ignoring case, binding injective into Par/FPar/array-element resp. Data '
+                 'registers), binding_complete (iff), conflicting_definitions_rejected, violation_rejected_with_position (error names '
+                 'file/line/label of the first symbol that names an unknown array or clashes with an earlier definition), analyze_outcomes + '
+                 'index_too_long_escapes, ranges_partition (sorted, disjoint, maximal, union = input), batch_set_eq_single (same registers on '
+                 'success; same exception and exact partial effect on failure), batch_get_eq_single (same keys/values, registers untouched), '
+                 'touches_exactly_bound_registers (⊆ and ⊇), name_denotes_one_register / names_resolve_injectively (parser .upper() vs manager '
+                 '.lower()), start_with_params_eq_single, parse_terminates (acyclic includes — hypothesis forced by the proof) with '
+                 'cyclic_include_never_terminates / parse_terminates_needs_acyclicity as kernel-checked negation witness (KNOWN-FINDING x3: include '
+                 'cycle, self-include, >4300-digit index -> ValueError). Tie: five differential streams against the real code (scanner texts, '
+                 'include resolution, range lists, ~8k layouts with injected duplicates/conflicts + accessor ops on the real Adwin_Base over a fake '
+                 'ADwin library, ~1.5k generated program trees on disk incl. nested/diamond/cyclic/missing includes) ≈ 23k cases quick / 215k '
+                 'thorough, plus a direct oracle.',
+         'note': 'Trusted: Lean kernel + 3 standard axioms; harness/generators; the six regexes, splitlines/universal newlines, posixpath '
+                 'join/dirname/normpath and int() digit limit are re-implemented in the model and only differentially checked (ASCII + '
+                 'line-separator code points; non-ASCII upper()/lower() not modelled); file system = finite path→text map; the ADwin is a total '
+                 'register file (Adwin_Base range/dtype validation, numpy dtype unification, 32-bit wrap not modelled). Batch≡single oracle domain: '
+                 'bound, case-distinct names and well-typed values. parse termination watchdog = open() budget 200 = model fuel.',
+         'technique': 'Lean 4 proof (loop invariants over dict-shaped state, two-phase batch vs fold refinement, weight-function termination) + '
+                      'differential correspondence with the real parser/manager + watchdog-guarded failing-input search'}}
